@@ -154,10 +154,14 @@ package jparse
 //@   requires len(tokenTypes) <= 1000
 //@   requires forall o in [0, len(tokenTypes)): (forall k in [0, len(tokenTypes[o])): tokenTypes[o][k] < ledCount)
 //@   ensures forall i in [0, ledCount): (result[i] >= 0 && (leds[i] == nil ==> result[i] == 0) && (leds[i] != nil ==> result[i] > 0))
+//@   ensures [C04:values] forall o in [0, len(tokenTypes)): (forall k in [0, len(tokenTypes[o])): result[tokenTypes[o][k]] == (len(tokenTypes) - o) * 10)
 //@   panics string
 //@   assigns nothing
 //@   loop 0 invariant forall i in [0, ledCount): bps[i] >= 0
+//@   loop 0 invariant [C04:values] forall o in [0, $i0 + 1): (forall k in [0, len(tokenTypes[o])): bps[tokenTypes[o][k]] == (len(tokenTypes) - o) * 10)
 //@   loop 1 invariant forall i in [0, ledCount): bps[i] >= 0
+//@   loop 1 invariant [C04:values] forall o in [0, $i0 + 1): (forall k in [0, len(tokenTypes[o])): bps[tokenTypes[o][k]] == (len(tokenTypes) - o) * 10)
+//@   loop 1 invariant [C04:values] forall k in [0, $i1 + 1): bps[tts[k]] == bp
 
 //@ func (*parser).advance
 //@   requires pLex(p)
@@ -176,6 +180,7 @@ package jparse
 //@ func (*parser).bp
 //@   requires p != nil
 //@   ensures result >= 0 && (t == typeEOF ==> result == 0) && ((t < ledCount && leds[t] != nil) ==> result > 0)
+//@   ensures (t < ledCount ==> result == bps[t]) && (t >= ledCount ==> result == 0)
 //@   assigns nothing
 
 // A nud is only ever called for the token type it is registered for in the nuds table, with a
@@ -215,6 +220,13 @@ package jparse
 //@   assigns p.token, p.lexer
 //@   loop 0 invariant pOK(p) && nn(lhs) && mu(p) < old(mu(p))
 //@   loop 0 decreases mu(p)
+//@   ensures [C04:pratt-exit] p.token.Type >= ledCount || bps[p.token.Type] <= rbp
+//@   atcall[C04:division-after-operand] parser.advance#0 requires callee_allowRegex == opensOperand(p.token.Type)
+//@   atcall[C04:regex-after-operator] parser.advance#1 requires callee_allowRegex == true
+
+// After these prefix tokens an operand is expected next (so a following / starts a regular expression); after
+// every other token that can start an expression an operand has just been completed (a following / divides).
+//@ pred opensOperand(tt tokenType) = tt == typeBracketOpen || tt == typeBraceOpen || tt == typeParenOpen || tt == typeMinus || tt == typePipe
 
 // ---------------------------------------------------------------------------
 // node.go: nud / led functions. Each must satisfy the function-type contract
@@ -268,24 +280,33 @@ package jparse
 //@   implements functype:led
 //@ func parseConditional
 //@   implements functype:led
+//@   atcall[C04:then-branch] parser.parseExpression#0 requires callee_rbp == 0
+//@   atcall[C04:else-branch-groups-right] parser.parseExpression#1 requires callee_rbp == 0
 //@ func parseAssignment
 //@   implements functype:led
+//@   atcall[C04:assign-groups-right] parser.parseExpression#0 requires callee_rbp == bps[t.Type] - 1
 //@ func parseFunctionApplication
 //@   implements functype:led
+//@   atcall[C04:left-assoc] parser.parseExpression#0 requires callee_rbp == bps[t.Type]
 //@ func parseStringConcatenation
 //@   implements functype:led
+//@   atcall[C04:left-assoc] parser.parseExpression#0 requires callee_rbp == bps[t.Type]
 //@ func parseSort
 //@   implements functype:led
 //@   loop 0 invariant pOK(p) && mu(p) <= old(mu(p)) && (terms == nil || fresh(terms)) && frame(terms)
 //@   loop 0 decreases mu(p)
 //@ func parseDot
 //@   implements functype:led
+//@   atcall[C04:left-assoc] parser.parseExpression#0 requires callee_rbp == bps[t.Type]
 //@ func parseNumericOperator
 //@   implements functype:led
+//@   atcall[C04:left-assoc] parser.parseExpression#0 requires callee_rbp == bps[t.Type]
 //@ func parseComparisonOperator
 //@   implements functype:led
+//@   atcall[C04:left-assoc] parser.parseExpression#0 requires callee_rbp == bps[t.Type]
 //@ func parseBooleanOperator
 //@   implements functype:led
+//@   atcall[C04:left-assoc] parser.parseExpression#0 requires callee_rbp == bps[t.Type]
 
 //@ func parseLambdaDefinition
 //@   requires pOK(p)
@@ -501,5 +522,20 @@ package jparse
 //@ func Parse$1
 //@   requires root != nil && err != nil
 //@   ensures true
+
+// ---------------------------------------------------------------------------
+// C04: precedence, associativity, regex/division mode. The clauses below are written from the property
+// statement; the code has to satisfy them.
+
+// Precedence rows of the statement: ( [  >  .  >  {  >  * / %  >  + - &  >  = != < <= > >= in ^ ~>  >  and  >  or  >  ?  >  :=
+// Rows are at least 2 apart (a right-associative operator parses its operand at its own power minus one).
+//@ func lemma:precedence
+//@   props C04
+//@   ensures [same-row] bps[typeParenOpen] == bps[typeBracketOpen] && bps[typeMult] == bps[typeDiv] && bps[typeDiv] == bps[typeMod] && bps[typePlus] == bps[typeMinus] && bps[typeMinus] == bps[typeConcat]
+//@   ensures [same-row-cmp] bps[typeEqual] == bps[typeNotEqual] && bps[typeEqual] == bps[typeLess] && bps[typeEqual] == bps[typeLessEqual] && bps[typeEqual] == bps[typeGreater] && bps[typeEqual] == bps[typeGreaterEqual] && bps[typeEqual] == bps[typeIn] && bps[typeEqual] == bps[typeSort] && bps[typeEqual] == bps[typeApply]
+//@   ensures [order] bps[typeParenOpen] >= bps[typeDot] + 2 && bps[typeDot] >= bps[typeBraceOpen] + 2 && bps[typeBraceOpen] >= bps[typeMult] + 2 && bps[typeMult] >= bps[typePlus] + 2 && bps[typePlus] >= bps[typeEqual] + 2
+//@   ensures [order-low] bps[typeEqual] >= bps[typeAnd] + 2 && bps[typeAnd] >= bps[typeOr] + 2 && bps[typeOr] >= bps[typeCondition] + 2 && bps[typeCondition] >= bps[typeAssign] + 2 && bps[typeAssign] >= 2
+//@   ensures [keywords-are-names] nuds[typeAnd] == nuds[typeName] && nuds[typeOr] == nuds[typeName] && nuds[typeIn] == nuds[typeName] && nuds[typeName] != nil
+//@   ensures [infix-table] leds[typeAnd] != nil && leds[typeOr] != nil && leds[typeIn] != nil && leds[typeDiv] != nil && nuds[typeDiv] == nil
 
 // END OF CONTRACTS (package jparse)
